@@ -573,7 +573,14 @@ func (c *Cluster) Exec(op string, rt uint64, force bool) (res Result) {
 			case "RR":
 				ss := parseSnapshot(f[2])
 				must(n.Peer.RestoreRemotes(ss))
-				n.Queue = nil
+				// entries of the same Update that follow the snapshot stay queued for apply
+				var keep []pb.Entry
+				for _, e := range n.Queue {
+					if e.Index > ss.Index {
+						keep = append(keep, e)
+					}
+				}
+				n.Queue = keep
 				n.Mem = MembershipOf(ss)
 			case "SNAP": // SNAP id snapshot compactTo
 				ss := parseSnapshot(f[2])
@@ -619,6 +626,9 @@ func (c *Cluster) Exec(op string, rt uint64, force bool) (res Result) {
 				must(n.LR.Append(x.EntriesToSave))
 				n.Peer.Commit(x)
 				n.Queue = append(n.Queue, x.CommittedEntries...)
+			case "MUT":
+				// marker written by the generator: the message delivered next to this replica was
+				// not the one handed to the transport (see Driver.Deliver); no effect on the replica
 			default:
 				panic("unknown op " + f[0])
 			}
